@@ -24,7 +24,10 @@ ASSUMPTIONS = c01.ASSUMPTIONS
 RULE = ("ens.missing: C08's ensemble/cdf/quantile ops that carry a missing member or value (threshold probability and quantile derived from an ensemble with missing members, stored columns with missing cells); clean.nc: vectors over {masked, nan, -999, -999.5, 0, 1e30, nextafter(1e30), 1e31, inf, -inf, -1e31}; clean.text: "
         "tokens {-999, -999.0, -9.99e2, NA, ., nan, NaN, inf, -inf, abc, 1e3, 1_0, '', +5}; metric.delete: vector pairs and "
         "the same pairs with k missing cases spliced in, 22 deterministic + 25 categorical metrics; data.missing: datasets "
-        "with 30-70% missing cells, all-missing slices and inputs, text files with every missing token")
+        "with 30-70% missing cells, all-missing slices and inputs, in every field kind (obs, fcst, PIT, stored CDF / "
+        "quantile columns, ensemble members, other scores: a missing value in ANY input removes the case for all, "
+        "datagen.gen_dataset, see C01; a fifth with -obs / -fcst FIELD); data.missing.text: the same through text files "
+        "with every missing token in every column kind")
 EXHAUSTIVE = {"quick": False, "thorough": False}
 LEVEL_TEXT = ("Lean theorems: util.clean maps exactly {masked, NaN, -999, > 1e30} to NaN and keeps everything else; "
               "Text._clean maps exactly {unparseable, -999, NaN} to NaN (both cleaners machine-translated and re-proved "
@@ -70,6 +73,8 @@ def gen_ops(tier, rng):
     n = 80 if tier == "quick" else 1500
     for k in range(n):
         ds = dg.gen_dataset(rng, missing=rng.choice([0.3, 0.5, 0.7]))
+        if k % 5 == 3:
+            ds = dg.add_field_options(ds, rng)      # -obs FIELD / -fcst FIELD
         if rng.random() < 0.3:      # one input entirely missing in one field
             I = rng.choice(ds.inputs)
             f = rng.choice(sorted(I["fields"]))
@@ -80,10 +85,10 @@ def gen_ops(tier, rng):
         reqs = dg.all_requests(ds, dims, rng, 20)
         yield "data.missing", dg.enc_op(ds, reqs)
         if k % 3 == 0 and not ds.cfg.get("clim") and not dg.has_repeats(ds):
-            ds2 = dg.DS([dict(I, fields={n_: a for n_, a in I["fields"].items() if n_ in ("obs", "fcst")}) for I in ds.inputs], {})
+            # every field kind (obs fcst pit p<t> q<q> e<k>, other scores) with every missing token
+            ds2 = dg.DS(ds.inputs, {})
             if all("fcst" in I["fields"] for I in ds2.inputs):
-                yield "data.missing.text", dg.enc_op(ds2, [r for r in reqs if "pit" not in r[0]][:8],
-                                                     head="datatxt %d" % rng.randrange(10 ** 6))
+                yield "data.missing.text", dg.enc_op(ds2, reqs[:8], head="datatxt %d" % rng.randrange(10 ** 6))
 
 
 def _metric(name, obs, fcst):
